@@ -102,14 +102,39 @@ class Node(object):
         else:
             out.append(gs[0])
         if self.parents:
-            pgs = [p.guards() for p in self.parents]
-            it = np.nditer(self.table, flags=["multi_index"])
-            # group rows by result to keep the clause count down when a parent is irrelevant
-            for x in it:
-                idx = it.multi_index
-                ante = [pgs[k][i] for k, i in enumerate(idx)]
-                out.append(z3.Implies(z3.And(*ante) if len(ante) > 1 else ante[0], gs[int(x)]))
+            if self.table.size > MAX_DEF_ROWS:
+                raise TooBig("definition of %s needs %d clauses" % (self.name, self.table.size))
+            ctx = z3.main_ctx()
+            cref = ctx.ref()
+            pgs = [[g.ast for g in p.guards()] for p in self.parents]
+            own = [g.ast for g in gs]
+            nparents = len(self.parents)
+            flat = self.table.reshape(-1)
+            shape = self.table.shape
+            arr_t = z3.Ast * nparents
+            clauses = []
+            held = []  # raw ASTs are reference counted by hand until the conjunction is wrapped
+            for lin, x in enumerate(flat.tolist()):
+                idx = np.unravel_index(lin, shape) if nparents > 1 else (lin,)
+                if nparents == 1:
+                    ante = pgs[0][idx[0]]
+                else:
+                    ante = z3.Z3_mk_and(cref, nparents, arr_t(*[pgs[k][int(i)] for k, i in enumerate(idx)]))
+                    z3.Z3_inc_ref(cref, ante)
+                    held.append(ante)
+                cl = z3.Z3_mk_implies(cref, ante, own[x])
+                z3.Z3_inc_ref(cref, cl)
+                held.append(cl)
+                clauses.append(cl)
+            if clauses:
+                big = z3.Z3_mk_and(cref, len(clauses), (z3.Ast * len(clauses))(*clauses)) if len(clauses) > 1 else clauses[0]
+                out.append(z3.BoolRef(big, ctx))
+            for a in held:
+                z3.Z3_dec_ref(cref, a)
         return out
+
+
+MAX_DEF_ROWS = 120_000
 
 
 def var(name, values, guards=None, zdefs=None):
@@ -578,20 +603,70 @@ def reset():
 
 
 def possible_indices(node, constraints):
-    """over-approximation of the value indices `node` can take when all constraints are true"""
+    """
+    over-approximation of the value indices `node` can take when all constraints are true:
+    the intersection of the sets obtained on several cuts (every cut yields a superset)
+    """
     cons = [c for c in constraints if isinstance(c, Node)]
     if any((not isinstance(c, Node)) and (not c) for c in constraints):
         return []
     targets = [node] + cons
+    possible = set(range(len(node.values)))
+
+    def on_cut(cut):
+        arrs = evaluate(targets, cut)
+        ok = np.array(True)
+        for c, a in zip(cons, arrs[1:]):
+            ok = ok & truth_array(c, a)
+        shape = np.broadcast_shapes(arrs[0].shape, ok.shape)
+        idx = np.broadcast_to(arrs[0], shape)[np.broadcast_to(ok, shape)]
+        return set(int(i) for i in np.unique(idx))
+
+    maxd = max(t.depth for t in targets)
+    tried = set()
+    for depth in range(maxd, max(0, maxd - 6), -1):
+        cut = frontier_keep(targets, depth)
+        key = tuple(sorted(c.id for c in cut))
+        if key in tried or grid_size(cut) > 300_000:
+            continue
+        tried.add(key)
+        try:
+            possible &= on_cut(cut)
+        except (TooBig, KeyError):
+            continue
+        if len(possible) <= 1:
+            return sorted(possible)
     cut, exact = base_cut(targets)
-    if grid_size(cut) > 200_000:
-        cut, exact = best_cut(targets, MAX_CUT_GRID)
-    if grid_size(cut) > MAX_CUT_GRID:
-        return list(range(len(node.values)))
-    arrs = evaluate(targets, cut)
-    ok = np.array(True)
-    for c, a in zip(cons, arrs[1:]):
-        ok = ok & truth_array(c, a)
-    shape = np.broadcast_shapes(arrs[0].shape, ok.shape)
-    idx = np.broadcast_to(arrs[0], shape)[np.broadcast_to(ok, shape)]
-    return sorted(set(int(i) for i in np.unique(idx)))
+    if grid_size(cut) <= 300_000:
+        try:
+            possible &= on_cut(cut)
+        except (TooBig, KeyError):
+            pass
+    return sorted(possible)
+
+
+def frontier_keep(targets, depth):
+    """like frontier(), but the first target is expanded once and constraint nodes may be cut members"""
+    cut = {}
+    seen = set()
+
+    def walk(n):
+        if n.id in seen:
+            return
+        seen.add(n.id)
+        if n.depth <= depth or n.is_var:
+            cut[n.id] = n
+            return
+        for p in n.parents:
+            walk(p)
+
+    first = targets[0]
+    if first.is_var:
+        cut[first.id] = first
+    else:
+        seen.add(first.id)
+        for p in first.parents:
+            walk(p)
+    for t in targets[1:]:
+        walk(t)
+    return list(cut.values())
